@@ -377,7 +377,7 @@ func main() {
 	// 1e. long key lists: PutMany of n distinct keys, one deleted, GetMany over all of them in a shuffled order with
 	//     repeated and absent keys (a backend may cut a long list into several requests: every answer must still
 	//     stand at the position of its key and carry that key)
-	longNs := []int{63, 64, 65, 66, 100, 129, 200}
+	longNs := []int{63, 64, 65, 66, 100, 129, 200, 512}
 	if thorough {
 		longNs = append(longNs, 127, 128, 255, 256, 257, 511, 513, 1000)
 	}
